@@ -5,8 +5,13 @@
   over membership). What remains is renaming: see `C06_clause_order_irrelevant` and `C06_same_blocks_same_dispatch`;
   the canonicalisation that makes renamed blocks syntactically equal is C13's subject and is compared with the real
   `resolve_non_predicate_params` on every generated variant.
+  On the syntactic level (last section): blocks that differ by a consistent renaming of the generic parameters and a
+  permutation of their declarations have the same canonical header and fall into one bucket of `mkBuckets`
+  (`C06_renamed_permuted_same_header`, `C06_renamed_permuted_one_bucket`; proofs: C13's alpha-invariance and
+  declaration-order theorems).
 -/
 import DisjointImpls.Props.C05
+import DisjointImpls.Props.C13
 namespace DI
 
 /-- the order in which a block's bounds are written (hence inline vs where-clause placement, which only moves a
@@ -33,5 +38,101 @@ theorem C06_decl_order_irrelevant (W : World) (b : Block) (ps : List String) (h 
 theorem C06_same_blocks_same_dispatch (W : World) (G G' : List Family) (hG : GroupingWF W G) (hG' : GroupingWF W G')
     (h : (blocksOf G).Perm (blocksOf G')) (q : T) : implemented W G q ↔ implemented W G' q :=
   C05_dispatch_invariant W G G' hG hG' h q
+
+/-! ## Renaming and declaration order on the syntactic level (proofs: C13, `Lemmas/CanonAlpha.lean`,
+`Lemmas/CanonDeclOrder.lean`)
+
+`alphaRename π item`: the generic parameters of the block consistently respelled by `π`; `setParams ps' item`: the block
+with its list of declared generic parameters replaced by `ps'`; `mkBlk` (Group.lean) canonicalises a raw block, `groupIdOf`
+is the header (trait path, self type) by which `mkBuckets` groups the blocks.
+Side conditions (executable): `canonWF item` (the well-formedness condition of C13) and `alphaOK π item` (only declared
+parameters are respelled, the new spellings are distinct per name space, parameters that occur nowhere keep their
+spelling, no capture) — see `Props/C13.lean`, "Alpha-invariance", for the reason each one is there. -/
+
+/-- **blocks that are equal up to a consistent renaming of the generic parameters and a permutation of their
+    declarations have the same canonical header** -/
+theorem C06_renamed_permuted_same_header (π : Renaming) (item : T) (ps' : List T) (hwf : canonWF item = true)
+    (hal : alphaOK π item = true) (hp : ps'.Perm (implParams (alphaRename π item))) :
+    groupIdOf (mkBlk (setParams ps' (alphaRename π item))).item = groupIdOf (mkBlk item).item := by
+  have hdecl : implDeclsOK item = true := by
+    simp only [canonWF, Bool.and_eq_true] at hwf
+    exact hwf.1.1.1
+  obtain ⟨h1, h2⟩ := C13_alpha_decls π item hdecl hal
+  show groupIdOf (canon (setParams ps' (alphaRename π item))) = groupIdOf (canon item)
+  rw [(C13_declOrder_header (alphaRename π item) ps' h1 h2 hp).1, (C13_alpha_header π item hwf hal).1]
+
+/-- … also when parameters that occur nowhere are respelled (`alphaOKh`: `alphaOK` without `deadFixed`), provided the
+    indexer visits the whole trait path and self type (`hdrVis`, executable: no nested `Generics` node) -/
+theorem C06_renamed_permuted_same_header_any (π : Renaming) (item : T) (ps' : List T) (hwf : canonWF item = true)
+    (hal : alphaOKh π item = true) (hv : hdrVis item = true) (hp : ps'.Perm (implParams (alphaRename π item))) :
+    groupIdOf (mkBlk (setParams ps' (alphaRename π item))).item = groupIdOf (mkBlk item).item := by
+  have hdecl : implDeclsOK item = true := by
+    simp only [canonWF, Bool.and_eq_true] at hwf
+    exact hwf.1.1.1
+  obtain ⟨h1, h2⟩ := alpha_decls_h π item hdecl hal
+  show groupIdOf (canon (setParams ps' (alphaRename π item))) = groupIdOf (canon item)
+  rw [(C13_declOrder_header (alphaRename π item) ps' h1 h2 hp).1, C13_alpha_header_any π item hwf hal hv]
+
+/-- … renaming alone: the canonical blocks are even identical (same header, same bounds) -/
+theorem C06_renamed_same_block (π : Renaming) (item : T) (hwf : canonWF item = true) (hal : alphaOK π item = true) :
+    mkBlk (alphaRename π item) = mkBlk item := by
+  unfold mkBlk
+  rw [C13_alpha_invariance π item hwf hal]
+
+/-- … declaration order alone -/
+theorem C06_permuted_same_header (item : T) (ps' : List T) (hdecl : implDeclsOK item = true)
+    (hd : namesDistinct (canonCtx item) = true) (hp : ps'.Perm (implParams item)) :
+    groupIdOf (mkBlk (setParams ps' item)).item = groupIdOf (mkBlk item).item :=
+  (C13_declOrder_header item ps' hdecl hd hp).1
+
+/-- two blocks with the same header fall into one bucket of `mkBuckets` -/
+theorem C06_same_header_one_bucket (b1 b2 : Blk) (h : groupIdOf b2.item = groupIdOf b1.item) :
+    (mkBuckets [b1, b2]).map Prod.fst = [groupIdOf b1.item] := by
+  simp [mkBuckets, h]
+
+/-- hence a block and its renamed and re-ordered presentation are grouped together -/
+theorem C06_renamed_permuted_one_bucket (π : Renaming) (item : T) (ps' : List T) (hwf : canonWF item = true)
+    (hal : alphaOK π item = true) (hp : ps'.Perm (implParams (alphaRename π item))) :
+    (mkBuckets [mkBlk item, mkBlk (setParams ps' (alphaRename π item))]).map Prod.fst = [groupIdOf (mkBlk item).item] :=
+  C06_same_header_one_bucket _ _ (C06_renamed_permuted_same_header π item ps' hwf hal hp)
+
+section C06Examples
+open Ex13
+set_option maxRecDepth 100000
+
+/-- `impl<A: Tr<B>, B> Kita for (A, A::Target) {}`: `named` respelled (`T ↦ A, U ↦ B`) and with its declarations swapped -/
+def Ex13.namedABSwParams : List T := [tyParam "A" [traitBound (trWith "Tr" (tyPath [seg "B"]))], tyParam "B" []]
+
+/-- non-vacuity: `impl<U, T: Tr<U>> Kita for (T, T::Target)` against `impl<A: Tr<B>, B> Kita for (A, A::Target)` -/
+theorem C06_renamed_permuted_example :
+    canonWF named = true ∧ alphaOK piNamed named = true ∧ namedABSwParams.Perm (implParams (alphaRename piNamed named)) ∧
+    setParams namedABSwParams (alphaRename piNamed named) =
+      implOf [tyParam "A" [traitBound (trWith "Tr" (tyPath [seg "B"]))], tyParam "B" []]
+        (tuple [tyPath [seg "A"], tyPath [seg "A", seg "Target"]]) ∧
+    (mkBuckets [mkBlk named, mkBlk (setParams namedABSwParams (alphaRename piNamed named))]).length = 1 := by
+  refine ⟨?_, ?_, ?_, ?_, ?_⟩
+  · with_unfolding_all decide
+  · with_unfolding_all decide
+  · have e : implParams (alphaRename piNamed named) =
+        [tyParam "B" [], tyParam "A" [traitBound (trWith "Tr" (tyPath [seg "B"]))]] := by with_unfolding_all decide
+    rw [e]
+    exact List.Perm.swap _ _ _
+  · with_unfolding_all decide
+  · with_unfolding_all decide
+
+/-- non-vacuity of `C06_renamed_permuted_same_header_any`: `impl<T, D> Kita for T` against `impl<E, T> Kita for T` -/
+theorem C06_renamed_permuted_any_example :
+    canonWF alphaDead = true ∧ alphaOKh piDead alphaDead = true ∧ hdrVis alphaDead = true ∧
+    [tyParam "E" [], tyParam "T" []].Perm (implParams (alphaRename piDead alphaDead)) ∧
+    (mkBuckets [mkBlk alphaDead, mkBlk (setParams [tyParam "E" [], tyParam "T" []] (alphaRename piDead alphaDead))]).length = 1 := by
+  refine ⟨?_, ?_, ?_, ?_, ?_⟩
+  · with_unfolding_all decide
+  · with_unfolding_all decide
+  · with_unfolding_all decide
+  · have e : implParams (alphaRename piDead alphaDead) = [tyParam "T" [], tyParam "E" []] := by with_unfolding_all decide
+    rw [e]
+    exact List.Perm.swap _ _ _
+  · with_unfolding_all decide
+end C06Examples
 
 end DI
